@@ -226,6 +226,37 @@ def run(chk, prog):
     chk.instance("LINGER", "src", "no relay socket is configured for an abortive close (SO_LINGER)", nl == 0 or True, "%d socket creation / accept sites, %d SO_LINGER sites" % (nsock, nl), nontrivial=False)
     chk.floor("LINGER", nsock, 3, "TCP socket creation / accept sites")
 
+    # FWD: a stream adapter of this crate that implements AsyncWrite / AsyncRead by delegation forwards every method to the method of
+    # the same name.  poll_shutdown answered by the inner poll_flush reports success without ending the stream: the peer behind a QUIC
+    # hop never sees end-of-stream until the whole tunnel is torn down.
+    nfw = 0
+    for im in prog.items["redproxy_rs"]["impls"]:
+        tr_ = im.get("trait", "")
+        if not re.search(r"tokio::io::async_(write::AsyncWrite|read::AsyncRead)$", tr_):
+            continue
+        tname = tr_.rsplit("::", 1)[1]
+        sty = prog.types["redproxy_rs"][im["self_ty"]]["s"]
+        for it in im["items"]:
+            g = prog.by_crate["redproxy_rs"].get(it["path"])
+            if g is None or not it["name"].startswith("poll_"):
+                continue
+            deleg = [c for c in g.calls if re.search(r"tokio::io::async_(write::AsyncWrite|read::AsyncRead)::poll_\w+$", c.path or "")]
+            if not deleg:
+                continue
+            nfw += 1
+            same = [c for c in deleg if (c.path or "").endswith("::" + it["name"])]
+            okf = bool(same)
+            chk.instance("FWD", "%s:%s" % (g.file, g.line), "%s::%s of %s delegates to the inner %s" % (tname, it["name"], sty, it["name"]), okf,
+                         "delegates to %s" % sorted(set(short(c.path) for c in deleg)))
+            if not okf:
+                chk.finding("FWD", g.key, "wrong-delegate", it["name"], "%s:%s" % (g.file, g.line),
+                            "%s::%s of %s forwards to %s instead of the inner %s: %s" % (
+                                tname, it["name"], sty, sorted(set(short(c.path) for c in deleg)), it["name"],
+                                "shutting down the write side reports success without ending the stream, so end-of-stream is not relayed through this hop"
+                                if it["name"] == "poll_shutdown" else "the operation performed is not the one requested"))
+    if "quic" in prog.features:
+        chk.floor("FWD", nfw, 4, "delegating AsyncRead/AsyncWrite methods")
+
     # ---------------------------------------------------------------- copy_bidi completion
     cb = prog.body_of(prog.one(r"^copy::copy_bidi$"))
     # Ok(()) results
